@@ -22,6 +22,10 @@ func PanicMatches(kind string, r *Report) bool {
 		return r.PanicType == "modsim.PlainStruct" && r.PanicValue == "{7 x}"
 	case "custom":
 		return r.PanicType == "modsim.CustomErr" && r.PanicValue == "custom error 42"
+	case "ctxcanceled":
+		return r.PanicType == "*errors.errorString" && r.PanicValue == "context canceled"
+	case "ctxwrapped":
+		return r.PanicType == "*fmt.wrapError" && r.PanicValue == "wrapped: context canceled"
 	}
 	return false
 }
@@ -70,16 +74,28 @@ func CheckC06(sc *Scenario, res *Result) *Violation {
 	began := map[int]int{}
 	panicked := map[int]bool{}
 	anyPanic := false
-	// lifecycle panics: the API call in progress must return an error
-	pendingLifecyclePanic := ""
+	// lifecycle panics: the API call that invoked the routine (the first call returning after the routine began) must
+	// return an error. A routine that is still in flight when Start already returned an error for another module is
+	// covered by that error.
 	lcName := map[string]string{"prep": "prep module", "start": "start module", "stop": "stop module"}
+	beginSeq := map[string]int64{}
+	apiAfter := func(seq int64) *Event {
+		for i := range res.Events {
+			e := &res.Events[i]
+			if e.Kind == "api" && e.Seq > seq && (e.Info == "start" || e.Info == "manage" || e.Info == "shutdown") {
+				return e
+			}
+		}
+		return nil
+	}
 	for _, e := range res.Events {
 		switch e.Kind {
+		case "prep-begin", "start-begin", "stop-begin":
+			beginSeq[e.Kind[:len(e.Kind)-6]+"|"+e.Mod] = e.Seq
 		case "prep-end", "start-end", "stop-end":
 			if e.Info == "panic" {
 				anyPanic = true
 				phase := strings.TrimSuffix(e.Kind, "-end")
-				pendingLifecyclePanic = phase + " of " + e.Mod
 				m := sc.Mod(e.Mod)
 				cb := map[string]Callback{"prep": m.Prep, "start": m.Start, "stop": m.Stop}[phase]
 				found := ""
@@ -94,16 +110,9 @@ func CheckC06(sc *Scenario, res *Result) *Violation {
 				if found != "" {
 					return violf("C06-report-content", "report for the panic in %s routine of %s: %s", phase, e.Mod, found)
 				}
-			}
-		case "api":
-			if (e.Info == "start" || e.Info == "manage" || e.Info == "shutdown") && pendingLifecyclePanic != "" {
-				if e.ErrNil {
-					return violf("C06-lifecycle-error", "%s returned nil although the %s panicked during the call", e.Info, pendingLifecyclePanic)
+				if call := apiAfter(beginSeq[phase+"|"+e.Mod]); call != nil && call.ErrNil {
+					return violf("C06-lifecycle-error", "%s returned nil although the %s routine of %s, invoked by that call, panicked", call.Info, phase, e.Mod)
 				}
-				pendingLifecyclePanic = ""
-			}
-			if e.Info == "counts" {
-				// compared with the expected-counts event that follows
 			}
 		case "expected-counts":
 			// find the preceding counts snapshot
